@@ -22,11 +22,14 @@ REQUESTS = {
     'boom2': ('GET', '/boom/9'),                       # a second uncaught exception with its own message
     # the same application reached under another root URL (virtual host): its slash redirect names that host
     'redir_beta': ('GET', '/branch', {'Host': 'beta.example'}),
+    # two requests through ONE instance of a built-in parameter-extracting middleware, with different parameters
+    'tag1': ('GET', '/tagged', None, 'tag=one&page=1'), 'tag2': ('GET', '/tagged', None, 'tag=two&page=2'),
 }
 PAIRS_QUICK = [('item1', 'item2'), ('item1', 'boom'), ('post', 'wrong'), ('nb', 'missing'), ('redir', 'item2'), ('ctx', 'multi'), ('nbfall', 'item1'),
                ('post2', 'put2'), ('get2', 'post2'), ('redir', 'missing'), ('item1', 'wrong'),
                ('missing_html', 'missing_json'), ('missing_json', 'missing_html'), ('boom', 'boom_xml'), ('missing', 'missing_json'),
-               ('boom', 'boom2'), ('boom2', 'boom'), ('redir', 'redir_beta'), ('redir_beta', 'redir')]
+               ('boom', 'boom2'), ('boom2', 'boom'), ('redir', 'redir_beta'), ('redir_beta', 'redir'), ('tag1', 'tag2'), ('tag2', 'tag1'),
+               ('tag1', 'item2')]
 
 
 def build_app():
@@ -74,9 +77,13 @@ def build_app():
     def two_post(n):
         return Response('two POST %s' % n)
     from clastic import GET
-    routes = [('/item/<n:int>', item), POST('/postonly', post), GET('/two/<n:int>', two_get), POST('/two/<n:int>', two_post), ('/boom/<n:int>', boom), ('/nb/<x>', nb), ('/branch/', lambda: Response('b')),
+    from clastic.middleware import GetParamMiddleware
+
+    def tagged(tag, page):
+        return Response('tagged %s page %s' % (tag, page))
+    routes = [('/tagged', tagged), ('/item/<n:int>', item), POST('/postonly', post), GET('/two/<n:int>', two_get), POST('/two/<n:int>', two_post), ('/boom/<n:int>', boom), ('/nb/<x>', nb), ('/branch/', lambda: Response('b')),
               ('/ctx/<n:int>', ctx, render_basic), ('/multi/<p+>', multi), ('/fall/<q>', fall), ('/fall/<q>', fall2)]
-    return Application(routes, middlewares=[Provider()])
+    return Application(routes, middlewares=[Provider(), GetParamMiddleware(['tag', 'page'])])
 
 
 BURST = 520        # more distinct URLs than any small per-process memo holds
@@ -100,7 +107,8 @@ def serve(app, name):
         return serve_burst(app)
     method, path = REQUESTS[name][:2]
     headers = REQUESTS[name][2] if len(REQUESTS[name]) > 2 else None
-    r = wsgi.call(app, wsgi.environ(path, method=method, headers=headers))
+    query = REQUESTS[name][3] if len(REQUESTS[name]) > 3 else ''
+    r = wsgi.call(app, wsgi.environ(path, method=method, headers=headers, query=query))
     body = r.body.decode('utf8', 'replace')
     if r.code == 500:
         # the page names the exception and its message (boom 7 / boom 9); the traceback below it varies with the schedule
@@ -167,6 +175,21 @@ def impl(case):
     solo = dict((n, mask(serve(build_app(), n))) for n in set([case['a']] + list(case['bs'])))
     out = {'schedules': 0, 'violations': [], 'ids': 0}
     ids = []
+    # a server (or a retry wrapper) may hand the application an environ it has seen before, or a copy of one: each CALL is a
+    # request of its own and gets an identifier of its own
+    from harness import wsgi as _w
+    import io as _io
+    app0 = build_app()
+    env0 = _w.environ('/item/1')
+    seen = []
+    for variant in ('first', 'same-environ-again', 'copy-of-the-environ'):
+        env_v = dict(env0) if variant == 'copy-of-the-environ' else env0
+        env_v['wsgi.input'] = _io.BytesIO(b'')
+        seen.append(_w.call(app0, env_v).header('X-Req-Id'))
+    real_seen = [i for i in seen if i not in (None, 'None')]
+    if len(set(real_seen)) != len(real_seen):
+        out['violations'].append({'plan': 'ids', 'duplicate_ids': sorted(set(i for i in real_seen if real_seen.count(i) > 1))[:5],
+                                  'how': 'one environ served again (and a copy of it): %s' % seen})
     # every schedule runs twice: on a COLD application (fresh object, nothing served yet - lazily built state is
     # still being built while the other thread arrives) and on one WARM application shared by all schedules of the
     # case (whatever an earlier request left behind is still there)
